@@ -67,4 +67,56 @@ def mergedLocs (s : List Obj) : Option (List (Str × Str)) :=
   | none => none
   | some nodes => s.mapM fun o => (finalLoc nodes o.loc).map fun f => (o.loc, f)
 
+/-! ## relocation below symlinked directories, stated without the code's loops
+
+An archive may record an entry *through* a symlinked directory (`/opt/current/bin/tool` with
+`/opt/current -> stable`).  Where the entry really lives is found by resolving its proper ancestors through
+the archive's own symlink entries, lexically, the way the code does it: as long as some symlink of the
+archive is a proper ancestor of the location, that ancestor is replaced by the symlink's (lexically
+normalised) target.  The path primitives (`isChild` = "lies strictly below", `moveLoc` = "the same entry
+with the ancestor replaced", `symTarget`) are the ones of `Model/C25.lean`; the loops are not used. -/
+
+/-- one resolution step: a symlink of `syms` that is a proper ancestor of `p` is replaced by its target
+(when no symlink of the archive lies below another one there is at most one candidate, see
+`Proofs/C25.lean`, `ancestor_sym_unique`) -/
+def stepLoc (syms : List Obj) (p : Str) : Option Str :=
+  (syms.find? fun s => isChild s.loc p).map fun s => moveLoc s.loc (symTarget s) p
+
+/-- `resolveDir n syms p`: at most `n` resolution steps (the termination measure: the theorems ask that
+`syms.length` steps settle every location — a chain that runs through every symlink once is that long;
+a cycle never settles) -/
+def resolveDir : Nat → List Obj → Str → Str
+  | 0, _, p => p
+  | n + 1, syms, p =>
+    match stepLoc syms p with
+    | none => p
+    | some p' => resolveDir n syms p'
+
+/-- the symlink entries of an archive -/
+def symsOf (raw : List Obj) : List Obj := raw.filter Obj.isSym
+
+/-- the entry `e` of `raw` at its resolved place (everything but the location unchanged) -/
+def placeOf (raw : List Obj) (e : Obj) : Obj := withLoc e (resolveDir (symsOf raw).length (symsOf raw) e.loc)
+
+/-- `dirname` applied `n` times -/
+def dirNameN : Nat → Str → Str
+  | 0, p => p
+  | n + 1, p => dirName (dirNameN n p)
+
+/-- the proper ancestors of a location: `dirname`, `dirname∘dirname`, … (a path has fewer components
+than characters, so `p.length` steps reach the root) -/
+def ancestors (p : Str) : List Str := (List.range p.length).map fun j => dirNameN (j + 1) p
+
+/-- executable form of the hypotheses of the relocation theorems (`Relocatable` in `Proofs/C25.lean`,
+`relocatable_of_check`): distinct locations; symlinks at normalised locations, none recorded below another one;
+following as many symlinks as the archive has settles every location; different entries resolve to different places -/
+def relocatableB (raw : List Obj) : Bool :=
+  let syms := symsOf raw
+  let res := fun (e : Obj) => resolveDir syms.length syms e.loc
+  decide (raw.map Obj.loc).Nodup
+    && syms.all (fun s => cnPrefix s.loc == s.loc ++ ['/'])
+    && syms.all (fun a => syms.all fun b => !isChild a.loc b.loc)
+    && raw.all (fun e => (stepLoc syms (res e)).isNone)
+    && raw.all (fun a => raw.all fun b => !(res a == res b) || a == b)
+
 end Pkgcore.C25.Spec
